@@ -512,6 +512,9 @@ def run(ctx):
     if os.environ.get("XV_C01_DEBUG"):
         slow.sort(reverse=True)
         ctx.log(f"cpu in stage 2: {sum(w for w, _ in slow):.0f}s; slowest items: " + "; ".join(f"{w:.1f}s {t!r}" for w, t in slow[:8]))
+    if os.environ.get("XV_C01_DUMP"):
+        with open(os.environ["XV_C01_DUMP"], "w") as f:
+            json.dump({k: v for k, v in sorted(fails.items())}, f, indent=1)
     # ---- report: re-check every class on a fresh parser (fresh state, no exploration history)
     for key in sorted(fails):
         n, ex, mt, mm, sig = fails[key]
@@ -530,8 +533,10 @@ def run(ctx):
             note=f"{n} failing input(s) minimise to this program",
         )
     # ---- evidence
-    for t in common.pick_samples([w[0] for w in work], ctx.seed, 6):
-        ctx.sample({"src": t, "mode": "exec", "verdict": evaluate(t, "exec"), "cpython": ast.dump(cpython_parse(t, "exec"))[:300]})
+    for t in common.pick_samples([w[0] for w in work], ctx.seed, 40):
+        tree = cpython_parse(t, "exec")
+        if tree is not None and len(ctx.samples) < 8:
+            ctx.sample({"src": t, "mode": "exec", "verdict": evaluate(t, "exec"), "cpython": ast.dump(tree)[:300]})
     bounds = {
         "layers": [{"name": n, "max_edits_by_constructor_deviations": list(b), "reduced_alphabet": r} for n, b, r in plan["layers"]],
         "max_list_len": plan["maxlen"],
